@@ -108,6 +108,7 @@ M_FAULT = [M("m_fault_put_bytes", W_FA % "one put", functions=F_FL + F_PUT, may_
 F_ST = ["dbxxx.rs key_piece_size_stats", "dbxxx.rs value_piece_size_stats", "dbxxx.rs key_length_stats", "dbxxx.rs value_length_stats", "filedb/mod.rs RecordSizeStats::touch_size", "filedb/mod.rs LengthStats::touch_length"]
 M_STATS = [M("m_stats_%s_bytes" % n, "%s over a store whose slot walk yields every slot (live or free) once: counts exactly the live non-empty records; read-only" % d, functions=F_ST, cap=900)
            for n, d in [("klen", "key_length_stats"), ("vlen", "value_length_stats"), ("ksize", "key_piece_size_stats"), ("vsize", "value_piece_size_stats")]]
+M_2STEP = M("m_put_get_del_bytes", "cross-check of the induction: put, get of the same and of another key, delete, includes_key as FOUR real calls in a row on one handle from an arbitrary valid state agree with the ideal map; I2 afterwards", functions=F_PUT + F_GET + F_DEL, tier="thorough", cap=3000)
 M_SETUP = M("m_setup_reachable", "vacuity twin: the constructed pre-state is satisfiable in its largest shapes and satisfies I2", cap=300)
 
 
@@ -213,6 +214,7 @@ R_KREW_L = [R("r_key_rewrite_bfree", W_WR % "KeyFile::write_piece of an existing
 R_KNEW_L = [R("r_key_new_bfree", W_WR % "KeyFile::add_key_piece (slot B free)", F_KW, cap=3000, tier="thorough", may_unsat=["in place", "moved: offsets needed a bigger slot"]),
             R("r_key_new_bused", W_WR % "KeyFile::add_key_piece (slot B used)", F_KW, cap=3000, tier="thorough", may_unsat=["in place", "moved: offsets needed a bigger slot"] + NOFREE)]
 R_VDEL = R("r_val_delete", "delete_piece: the slot goes onto the free list of its own size as its head, file length unchanged", ["val.rs VarFileValueCache::delete_piece", "piece.rs VarFile::push_free_piece_list"], cap=600)
+R_KDW = R("r_key_delete_walk", "key file: delete_piece puts the slot on the list of its size as head, neighbours untouched; the slot walk then yields the freed slot (key length 0) and the live one once each and ends; readers return size and length", ["key.rs VarFileKeyCache::delete_piece", "key.rs PieceA for KeyFile", "piece.rs PieceOffsetIter", "key.rs read_piece_only_key_length", "key.rs read_piece_only_size"], cap=600)
 R_WALK = R("r_val_walk", "sequential slot walk (PieceOffsetIter behind the slot-size statistics) over 0..3 tiled slots, free or used: every slot exactly once in address order, then None; terminates; read-only", ["piece.rs PieceOffsetIter::next_piece_offset", "val.rs PieceA for ValueFile"], cap=600)
 
 PROPS = {}
@@ -253,8 +255,8 @@ prop("C09_old", [K_VSLOT, K_VSLOT_2G, K_KSLOT, K_KSLOT_16M, K_ROUNDUP],
 
 
 R_M = "M-harness rule: one inductive step of the real dbxxx.rs from an arbitrary valid state; see DESIGN 2."
-prop("C01", [MB["put_new"], MB["put_over"], MB["del_hit"], MB["del_miss"], MB["lookup"], M_SETUP, M_BIG["put_new"], M_BIG["put_over"], M_BIG["del_hit"], M_BIG["lookup"]] + [M_KT("vu64", "thorough")[k] for k in ("put_new", "del_miss", "lookup")] + [M_KT("string", "thorough")[k] for k in ("put_new", "put_over", "del_hit")],
-     trusted_base=TB_COMMON + M_TB, rule=R_M, bounds=M_BOUNDS,
+prop("C01", [MB["put_new"], MB["put_over"], MB["del_hit"], MB["del_miss"], MB["lookup"], M_SETUP, R_POPL, R_POPS, R_PUSH, R_VDEL, R_KDW, M_2STEP, M_BIG["put_new"], M_BIG["put_over"], M_BIG["del_hit"], M_BIG["lookup"]] + [thorough(h) for h in R_VREW_L + R_VNEW_L] + R_KREW_L + R_KNEW_L + [M_KT("vu64", "thorough")[k] for k in ("put_new", "del_miss", "lookup")] + [M_KT("string", "thorough")[k] for k in ("put_new", "put_over", "del_hit")],
+     trusted_base=TB_COMMON + M_TB + R_TB, rule=R_M + " The record-store contract that layer M assumes is discharged by the layer-R harnesses listed with it.", bounds=M_BOUNDS + "; record layer: " + R_ASSUME[0],
      outside=["histories that need more than 3 simultaneously live entries in ONE inductive step (longer histories are covered by the induction)", "rabuf's chunking and eviction (dependency)", "I/O errors of a sick file system", "values/keys longer than the tracked bytes at level M: lengths up to 2^24/2^31 are decided at levels K and R"])
 prop("C08", [MB["put_over"], quick(M_BIG["del_hit"]), K_KGROW, M_BIG["put_over"], thorough(MB["del_hit"]), thorough(MV["put_over"]), thorough(MV["del_hit"]), thorough(MS["put_over"])],
      trusted_base=TB_COMMON + M_TB, rule=R_M, bounds=M_BOUNDS, outside=["relocation cascades longer than the chain bound (2 at quick, 3 at thorough): the relink loop is verified for every chain of that length, longer chains repeat the same step"])
@@ -267,7 +269,7 @@ R_B = "B-harness rule: the real byte-level function on a symbolic file image."
 prop("C04", list(M_ITER.values()) + [M_ITER_X[1], M_ITER_X[2]] + B_SCAN_SMALL + [B_SCAN_G[32], B_SCAN_G[64], B_SCAN_G[128], B_SCAN_G[256], B_SCAN_G[512], M_ITER_X[0], M_ITER_X[3], M_BIG["iter_mut"]],
      trusted_base=TB_COMMON + M_TB + B_TB, rule=R_M + " " + R_B, bounds="iterators: " + M_BOUNDS + "; bucket scan: tables of 1..16 buckets with every start index, 32..128 (thorough: ..512) buckets with every group-aligned start index, all table bytes symbolic",
      outside=["modification during a traversal (excluded by the property)", "tables of more than 512 buckets: the scan code depends on n only through the loop bounds idx + 8 < n and idx < n and the 64-bucket stride, all of which are crossed at 128..512"])
-prop("C02", B_OPEN_EX + [B_OPEN_NEW] + B_OPEN_DAT + B_HDRW + [MV["lookup"], K_HASH()[0]],
+prop("C02", B_OPEN_EX + [B_OPEN_NEW] + B_OPEN_DAT + B_HDRW + [MV["lookup"], K_HASH()[0], M_2STEP],
      trusted_base=TB_COMMON + M_TB + B_TB, rule=R_B, bounds="stored tables of 2 and 8 buckets with symbolic contents; all parameter values",
      outside=["that rabuf's Drop writes every dirty chunk and that the OS returns what was written (dependency / kernel)", "reopen in another process", "the Rc handle graph of FileDb (see C11)",
               "argument: reopening = a fresh FileDbXxxInner over the same three files; every M-harness builds its handle freshly over an ARBITRARY valid store state and leaves such a state behind, so nothing a handle remembers matters except the cached bucket count, which is decided here"])
@@ -288,7 +290,7 @@ prop("C14", A_ALL, trusted_base=TB_COMMON + A_TB, rule="A-harness rule: the real
 
 R_R = "R-harness rule: one real record-level call from an arbitrary I1 image built from solver variables."
 del PROPS["C09_old"]
-prop("C06", [R_POPL, R_POPS, R_PUSH, R_VDEL] + R_VREW_L + [R_WALK, K_ROUNDUP, K_LISTS] + R_VNEW_L + R_KREW_L + R_KNEW_L + R_V3_L + [MB["del_hit"]],
+prop("C06", [R_POPL, R_POPS, R_PUSH, R_VDEL, R_KDW] + R_VREW_L + [R_WALK, K_ROUNDUP, K_LISTS] + R_VNEW_L + R_KREW_L + R_KNEW_L + R_V3_L + [MB["del_hit"]],
      trusted_base=TB_COMMON + R_TB + M_TB, rule=R_R, bounds=R_ASSUME[0],
      outside=["'file size bounded for a bounded live set' follows from the per-call rule (the file grows only if no suitable free slot exists) by a counting argument in DESIGN 4 C06 (prose)", "fragmentation behaviour of first fit on the large list beyond the rule itself",
               "free lists longer than 3 entries in one inductive step"])
@@ -298,12 +300,12 @@ prop("C09", [K_VSLOT, K_KSLOT, K_ROUNDUP] + R_VREW_L + [B_ZERO, B_ZEROL, K_VSLOT
      outside=["lengths >= 2^31 (u32 arithmetic of the crate wraps; beyond the property's 'at least 16 MiB')", "payload bytes beyond the first 3 of a record at level R (the payload is one write_all_small call; its bytes are covered by the buffer model at level B)"])
 K_TOUCH = [H("k", "k_touch_size", "RecordSizeStats::touch_size keeps a strictly ascending histogram whose counts are the touches per value", cap=300, bounds="any 3 touches", functions=["filedb/mod.rs RecordSizeStats::touch_size"]),
            H("k", "k_touch_length", "LengthStats::touch_length: same", cap=300, bounds="any 3 touches", functions=["filedb/mod.rs LengthStats::touch_length"])]
-prop("C17", [R_COUNT, R_WALK] + B_FILL + M_STATS + K_TOUCH, trusted_base=TB_COMMON + R_TB + B_TB + M_TB, rule=R_R + " " + R_B + " " + R_M, bounds=R_ASSUME[0] + "; tables of 2, 8 (16) buckets; " + M_BOUNDS,
+prop("C17", [R_COUNT, R_WALK, R_KDW] + B_FILL + M_STATS + K_TOUCH, trusted_base=TB_COMMON + R_TB + B_TB + M_TB, rule=R_R + " " + R_B + " " + R_M, bounds=R_ASSUME[0] + "; tables of 2, 8 (16) buckets; " + M_BOUNDS,
      outside=["keys_count_stats (returns an empty vector by construction)", "the buf_stats feature"])
 prop("C05", [MS["put_new"], MS["put_over"], MS["del_hit"], B_BUCKET[8], B_BUCKET[16], B_API[1], R_VDEL, R_PUSH] + [thorough(h) for h in R_VREW_L] + [B_BUCKET[64], B_BUCKET[256]] + R_KREW_L + R_KNEW_L,
      trusted_base=TB_COMMON + M_TB + B_TB + R_TB, rule="C05 is the conjunction I1 (record files, layer R) and I2 (chains, count, bitmap, value ownership: layers M and B), each asserted after one real call from an arbitrary valid state by a checker that shares no code with the crate",
      bounds=M_BOUNDS + "; " + R_ASSUME[0] + "; tables of 8, 16 (64, 256) buckets", outside=["as C01 and C06"])
-prop("C15", [MS["lookup"], MB["del_miss"], M_ITER_X[2], M_ITER["keys"]] + M_STATS[:2] + [B_SCAN_SMALL[3], B_SCAN_G[32], B_FILL[1], B_HDRR[0], R_COUNT, R_WALK, M_ITER["values"], B_SCAN_G[128]],
+prop("C15", [MS["lookup"], MB["del_miss"], M_ITER_X[2], M_ITER["keys"]] + M_STATS[:2] + [B_SCAN_SMALL[3], B_SCAN_G[32], B_FILL[1], B_HDRR[0], R_COUNT, R_WALK, R_KDW, M_ITER["values"], B_SCAN_G[128]],
      trusted_base=TB_COMMON + M_TB + B_TB + R_TB, rule="every read-only entry point is run under a read-only latch in the store / buffer / file model: any write, length change or extension by a seek beyond the end is an assertion failure at the offending call",
      bounds=M_BOUNDS + "; tables of 8, 32 (128) buckets; " + R_ASSUME[0],
      outside=["whether rabuf re-writes clean chunks (it does not mark chunks dirty on reads: read from its source, not checked)", "bulk_get (= get per key: C14 shows it calls only get)"])
